@@ -20,3 +20,7 @@ open ZnVerif.Properties.C04
 #print axioms keyword_wordlen_consistent
 #print axioms keyword_types_documented
 #print axioms keyword_documented_functional
+#print axioms documented_prefix_free
+#print axioms lex_is_greedy_segmentation_partial
+#print axioms backtick_is_one_identifier
+#print axioms operator_needs_delimiter
